@@ -152,6 +152,7 @@ func refChainsPath(p *qPath, prefix []string, top bool, out *[][]string, pathArg
 	}
 	*out = append(*out, append(append([]string{}, prefix...), idents...))
 }
+
 // an argument that is a path navigates its own chain: a `$` path from the root of the data wherever it stands; an `@` path from the
 // value the function is applied to - at the top level its chain is listed as it is, inside a filter condition the property does
 // not say what is listed for it (pathArgsInFilter: exactness is then not checked)
@@ -354,6 +355,9 @@ func c20DocFor(r *rng) *Doc {
 				for i := 0; i < n; i++ {
 					arr.A = append(arr.A, obj(depth-1))
 				}
+				if r.Intn(5) == 0 { // a null element: a condition meets nothing there
+					arr.A = append(arr.A, dNull())
+				}
 				d.Vals = append(d.Vals, arr)
 			default:
 				d.Vals = append(d.Vals, leaf())
@@ -372,6 +376,9 @@ func c20DocFor(r *rng) *Doc {
 			arr := &Doc{K: 'a'}
 			for i := 0; i < n; i++ {
 				arr.A = append(arr.A, obj(2))
+			}
+			if r.Intn(4) == 0 {
+				arr.A = append([]*Doc{dNull()}, arr.A...)
 			}
 			root.Vals = append(root.Vals, arr)
 		default:
@@ -569,7 +576,7 @@ func runC20(c *Ctx) {
 				if listed[strings.ToLower(k)] {
 					continue
 				}
-				for _, how := range []string{"delete", "replace", "add"} {
+				for _, how := range []string{"delete", "replace", "add", "add-like-a-condition-key"} {
 					d2 := &Doc{K: 'o'}
 					for j := range doc.Keys {
 						if j == i {
@@ -588,6 +595,14 @@ func runC20(c *Ctx) {
 					if how == "add" {
 						d2.Keys = append(d2.Keys, "zz"+k)
 						d2.Vals = append(d2.Vals, dNum("7"))
+					}
+					if how == "add-like-a-condition-key" { // root fields named like the keys the conditions read in the elements
+						for si, sk := range c20Sub {
+							if !listed[sk] {
+								d2.Keys = append(d2.Keys, sk)
+								d2.Vals = append(d2.Vals, []*Doc{dBool(true), dNum("1"), dNum("2"), dStr("s")}[(si+i)%4])
+							}
+						}
 					}
 					got := evalOp(op, buildAny(render(d2, st))).Line()
 					perturbations++
